@@ -872,3 +872,32 @@ Qed.
 End DataG.
 
 End Gen.
+
+(* both entry modes in one statement *)
+Theorem kernel_any_budget :
+  forall (src offs : list Z) (maxrow ncols : Z),
+  len offs = ncols + 1 -> 0 < ncols -> 0 < maxrow ->
+  forall (V : Z) (rows : list (list cell)),
+  nthZ offs 0 = 0 ->
+  (forall c, 0 <= c < ncols -> nthZ offs c + 1 <= nthZ offs (c + 1)) ->
+  nthZ offs ncols <= V ->
+  Forall (fun rw : list cell => len rw = ncols) rows ->
+  forall (hasHeader : bool) (hdr : list cell) (k : nat) (i0 : Z) (inds : arr2) (vals p : list Z),
+  (k <= length rows)%nat -> 0 <= i0 <= len src ->
+  (hasHeader = true -> i0 = 0 /\ len hdr = ncols) ->
+  suf src i0 = (if hasHeader then render_row hdr else []) ++ render_file (firstn k rows) ++ p ->
+  cutp rows k p ->
+  shape ncols (maxrow + 1) inds -> (forall c, 0 <= c < ncols -> I2 inds c 0 = 0) -> len vals = V ->
+  exists out, fast_csv_reader (fsm_fuel src i0) src i0 inds vals offs hasHeader = Ok out /\
+    KOut src offs maxrow ncols V rows k (i0 + len (if hasHeader then render_row hdr else [])) out.
+Proof.
+  intros src offs maxrow ncols Hoffs Hncols Hmaxrow V rows Hoffs0 Hb1 HV Hrect hasHeader hdr k i0 inds vals p
+         Hk Hi0 Hh Hsuf Hcut Hsh H0 Hv.
+  destruct hasHeader.
+  - destruct (Hh eq_refl) as (-> & Hhdr). rewrite suf_0 in Hsuf. rewrite Z.add_0_l.
+    exact (kernel_gen_hdr src offs maxrow ncols Hoffs Hncols Hmaxrow V rows Hoffs0 Hb1 HV Hrect hdr k inds vals p
+             Hk Hhdr Hsuf Hcut Hsh H0 Hv).
+  - cbn [app] in Hsuf. replace (len (@nil Z)) with 0 by reflexivity. rewrite Z.add_0_r.
+    exact (kernel_gen_nohdr src offs maxrow ncols Hoffs Hncols Hmaxrow V rows Hoffs0 Hb1 HV Hrect k i0 inds vals p
+             Hk Hi0 Hsuf Hcut Hsh H0 Hv).
+Qed.
